@@ -150,6 +150,13 @@ func (s *ManagedServer) dequeueSave(ctx context.Context) {
 		select {
 		case <-s.saveQueue:
 		case <-ctx.Done():
+			// Both channels may be ready, in which case select picks one at random.
+			// Do not drop a save job that was queued before the shutdown.
+			select {
+			case <-s.saveQueue:
+				s.save()
+			default:
+			}
 			return
 		}
 
@@ -165,16 +172,20 @@ func (s *ManagedServer) dequeueSave(ctx context.Context) {
 		default:
 		}
 
-		// The save operation only reads cachedCredMap and writes cachedContent.
-		// It is without doubt that taking the read lock is enough for cachedCredMap.
-		// As for cachedContent, the only other place that reads and writes it is LoadFromFile,
-		// which takes the write lock. So it is safe to take just the read lock here.
-		s.mu.RLock()
-		if err := s.saveToFile(); err != nil {
-			s.logger.Error("Failed to save credentials", zap.Error(err))
-		}
-		s.mu.RUnlock()
+		s.save()
 	}
+}
+
+func (s *ManagedServer) save() {
+	// The save operation only reads cachedCredMap and writes cachedContent.
+	// It is without doubt that taking the read lock is enough for cachedCredMap.
+	// As for cachedContent, the only other place that reads and writes it is LoadFromFile,
+	// which takes the write lock. So it is safe to take just the read lock here.
+	s.mu.RLock()
+	if err := s.saveToFile(); err != nil {
+		s.logger.Error("Failed to save credentials", zap.Error(err))
+	}
+	s.mu.RUnlock()
 }
 
 // Start starts the managed server.
